@@ -16,7 +16,11 @@
               (sign discipline of the estimate that feeds C08.AGE); it is reachable while the period is
               unknown, is elapsed / received, and add_sample keeps the two counters it is made of (one
               increment per stored sample, start = first timestamp).  How long the buffer is made is
-              NOT decided: the property allows "the most recent ones that fit the configured buffer".
+              NOT decided: the property allows "the most recent ones that fit the configured buffer";
+              what IS decided (C08.BUF) is that every resize is bounded by config.max_buffer_len on
+              each path.
+  C08.TICK    the T of a tick is the coordinator's window end, advanced exactly once per tick also when
+              a series fails (per-tick rules of the C07 checker, re-reported here).
 """
 from __future__ import annotations
 
@@ -429,6 +433,10 @@ def check_filter(run: Run, prog: Program) -> None:
                   "equal timestamps silently discarded)", node=ad.node, file=ad.file, path=p.describe())
 
 
+def _min_with(e: ast.AST, cap: str) -> bool:
+    return isinstance(e, ast.Call) and u(e.func) == "min" and not e.keywords and any(u(a) == cap for a in e.args)
+
+
 def check_buf(run: Run, prog: Program) -> None:
     cls = prog.cls(HELPER)
     writers = []
@@ -460,6 +468,29 @@ def check_buf(run: Run, prog: Program) -> None:
         run.check(ok, "C08.BUF", m.qual, s,
                   "the buffer is not a bounded deque (re-created from its old content on resize)",
                   node=s, file=m.file)
+        if ok and m.name != "__init__":
+            # "the most recent ones that fit the configured buffer": a resize never exceeds the configured cap
+            cap = f"{CONF}.max_buffer_len"
+            n = 0
+            for p in _paths(prog, m):
+                for e in p.effects:
+                    if e.kind != "write" or u(e.node.elts[0]) != BUF:  # type: ignore[attr-defined]
+                        continue
+                    val = e.node.elts[1]  # type: ignore[attr-defined]
+                    ml = positional(val, ["iterable", "maxlen"]).get("maxlen") if isinstance(val, ast.Call) else None
+                    if ml is None:
+                        continue
+                    n += 1
+                    t = u(ml)
+                    capped = t == cap or p.outcome(("<", cap, t)) is False or p.outcome(("<=", t, cap)) is True \
+                        or _min_with(ml, cap)
+                    run.check(capped, "C08.BUF", m.qual, f"resized buffer length <= {cap}",
+                              "the buffer is resized to a length that is not bounded by the configured "
+                              f"max_buffer_len on this path (maxlen = {t[:100]}): the resampling function would "
+                              "receive more samples than fit the configured buffer", node=s, file=m.file,
+                              path=p.describe(), instance=f"{m.qual}: resize bounded by the configured cap")
+            if not n:
+                raise AnalysisError(f"{m.qual}: no path re-creates the buffer")
 
 
 def check_est(run: Run, prog: Program) -> None:
@@ -558,11 +589,33 @@ CONTROLS = [
 ]
 
 
+def check_tick(run: Run, prog: Program) -> None:
+    """The T of the statement is the tick being served: the timestamp every helper is asked for is the
+    coordinator's window end, and that advances exactly one period per tick, also on the tick in which
+    a sink or source fails (otherwise every later tick at T emits f over (T - p - age, T - p] stamped
+    T - p).  Decided by the per-tick rules of the C07 checker, reported here under C08.TICK."""
+    from . import c07
+
+    scratch = Run("C07", run.tier, run.seed)
+    scratch.quiet = True
+    c07.check_step(scratch, prog)
+    c07.check_same(scratch, prog)
+    run.functions |= scratch.functions
+    bad = [v for v in scratch.violations]
+    for inst in sorted(scratch.distinct):
+        run.ok("C08.TICK", inst)
+    for v in bad:
+        run.violation("C08.TICK", v.function, v.construct,
+                      "the timestamp a tick hands to the helpers is not the tick being served: " + v.message,
+                      path=v.path, file=v.where.split(":")[0] if v.where else None)
+
+
 def run_rules(run: Run, prog: Program) -> None:
     check_edge(run, prog)
     check_filter(run, prog)
     check_buf(run, prog)
     check_est(run, prog)
+    check_tick(run, prog)
 
 
 def check(run: Run, prog: Program, tier: str) -> str:
